@@ -143,3 +143,42 @@ Fixpoint view_tokens_tc (fuel : nat) (V : view) (adj : N -> option (bool * nat))
              end
       end
   end.
+
+(** ** rules sharing an action through '|': the scanner reports the rule whose
+    action text runs ([owner r]), the manual still selects by the matching rule *)
+Inductive DocTokO (p : program) (owner : N -> N) (sc : N) : bool -> list byte -> list (N * nat) -> Prop :=
+| DTO_nil : forall bol, DocTokO p owner sc bol [] []
+| DTO_cons : forall bol w r k h rest,
+    w <> [] -> r <> 0 ->
+    Selected (spec_start p sc bol) w r k ->
+    SplitOk p r (firstn k w) h -> (1 <= h)%nat ->
+    DocTokO p owner sc (bol_after bol (firstn h w)) (skipn h w) rest ->
+    DocTokO p owner sc bol w ((owner r, h) :: rest).
+
+Fixpoint validate_o (p : program) (owner : N -> N) (sc : N) (bol : bool) (w : list byte) (toks : list (N * nat)) : bool :=
+  match toks with
+  | [] => match w with [] => true | _ => false end
+  | (ra, h) :: rest =>
+      match w with
+      | [] => false
+      | _ =>
+          let (r', k) := spec_scan (spec_start p sc bol) w in
+          N.eqb ra (owner r') && negb (N.eqb r' 0) && (1 <=? h)%nat && split_okb p r' (firstn k w) h &&
+          validate_o p owner sc (bol_after bol (firstn h w)) (skipn h w) rest
+      end
+  end.
+
+Theorem validate_o_sound p owner sc toks : forall bol w,
+  validate_o p owner sc bol w toks = true -> DocTokO p owner sc bol w toks.
+Proof.
+  induction toks as [|[ra h] rest IH]; intros bol w; simpl.
+  - destruct w; [constructor|discriminate].
+  - destruct w as [|b w]; [discriminate|].
+    pose proof (spec_scan_selected (spec_start p sc bol) (b :: w) (spec_start_nz p sc bol)) as Hsel.
+    destruct (spec_scan (spec_start p sc bol) (b :: w)) as [r' k].
+    rewrite !andb_true_iff. intros [[[[Hr Hnz] Hh] Hsp] Hrest].
+    apply N.eqb_eq in Hr. subst ra. apply negb_true_iff in Hnz. apply N.eqb_neq in Hnz.
+    assert (Hh' : (1 <= h)%nat) by (destruct h; [discriminate|lia]). apply split_okb_spec in Hsp.
+    destruct Hsel as [[_ Hsel]|[H0 _]]; [|congruence].
+    econstructor; eauto. discriminate.
+Qed.
